@@ -34,11 +34,12 @@ impl<T> core::ops::Deref for Node<T> {
 }
 
 // Value: only the Null/non-Null distinction matters to the extracted code.
-pub enum Value { Null, Other(u64) }
+pub enum Value { Null, Variable(Name), Other(u64) }
 
 pub mod ast {
     pub use super::{Type, Value, Name, NamedType, Node};
-    pub struct VariableDefinition { pub ty: super::Node<super::Type>, pub default_value: Option<super::Node<super::Value>> }
+    pub struct VariableDefinition { pub name: super::Name, pub ty: super::Node<super::Type>, pub default_value: Option<super::Node<super::Value>> }
+    pub use super::ast2::Argument;
     pub struct InputValueDefinition { pub ty: super::Node<super::Type>, pub default_value: Option<super::Node<super::Value>> }
 }
 
@@ -125,8 +126,145 @@ pub open spec fn is_valid_implementation_field_type_spec(s: &SchemaShim, field_t
     }
 }
 
+pub type VarDef = ast::VariableDefinition;
+
+// ---------------- shims for the two call sites (validate_variable_usage, validate_implementation_field_types) ----------------
+pub struct SourceSpan { pub x: u64 }
+pub enum DiagnosticData {
+    DisallowedVariableUsage { variable: Name, variable_type: Type, variable_location: Option<SourceSpan>, argument: Name, argument_type: Type, argument_location: Option<SourceSpan> },
+    InvalidImplementationFieldType { name: Name, interface: Name, field: Name, interface_type: Type, actual_type: Type, field_location: Option<SourceSpan>, interface_field_location: Option<SourceSpan> },
+    Other,
+}
+pub struct DiagnosticEntry { pub location: Option<SourceSpan>, pub data: DiagnosticData }
+// validation::DiagnosticList::push appends one entry (validation/mod.rs)
+pub struct DiagnosticList { pub entries: Vec<DiagnosticEntry> }
+impl DiagnosticList {
+    pub fn push(&mut self, location: Option<SourceSpan>, data: DiagnosticData)
+        ensures final(self).entries@ == old(self).entries@.push(DiagnosticEntry { location, data })
+    { self.entries.push(DiagnosticEntry { location, data }) }
+}
+pub mod ast2 {
+    // the parts of ast::VariableDefinition / InputValueDefinition / Argument the bodies read (names and types as in /repo)
+    pub struct Argument { pub name: super::Name, pub value: super::Node<super::Value> }
+}
+impl<T> Node<T> {
+    #[verifier::external_body]
+    pub fn location(&self) -> Option<SourceSpan> { unimplemented!() }
+}
+/// `var_defs.iter().find(|v| v.name == *var_name)` (listed rewrite): the first definition with that name
+pub open spec fn first_def(defs: Seq<Node<VarDef>>, name: Name, r: Option<&Node<VarDef>>) -> bool {
+    match r {
+        Some(d) => exists|i: int| 0 <= i < defs.len() && #[trigger] defs[i] == *d && d.0.name == name && forall|j: int| 0 <= j < i ==> (#[trigger] defs[j]).0.name != name,
+        None => forall|j: int| 0 <= j < defs.len() ==> (#[trigger] defs[j]).0.name != name,
+    }
+}
+#[verifier::external_body]
+pub fn find_variable_definition<'a>(defs: &'a [Node<VarDef>], name: &Name) -> (r: Option<&'a Node<VarDef>>)
+    ensures first_def(defs@, *name, r)
+{ unimplemented!() }
+
+// ---- schema pieces for validate_implementation_field_types (IndexMap / IndexSet seen as sequences in insertion order) ----
+pub struct ComponentName { pub name: Name }
+pub struct FieldDefinition { pub ty: Node<Type> }
+pub struct Component<T> { pub node: Node<T> }
+impl<T> core::ops::Deref for Component<T> {
+    type Target = T;
+    fn deref(&self) -> (r: &T) ensures *r == *self.node.0 { &*self.node.0 }
+}
+impl<T> Component<T> {
+    #[verifier::external_body]
+    pub fn location(&self) -> Option<SourceSpan> { unimplemented!() }
+}
+pub type FieldMapSeq = Seq<(Name, Component<FieldDefinition>)>;
+/// index of the first entry with key `k`, or -1
+pub open spec fn find_idx(m: FieldMapSeq, k: Name, n: int) -> int decreases n {
+    if n <= 0 { -1 } else { let r = find_idx(m, k, n - 1); if r >= 0 { r } else if m[n - 1].0 == k { n - 1 } else { -1 } }
+}
+#[verifier::external_body]
+pub struct FieldMap { x: u8 }
+impl FieldMap {
+    pub uninterp spec fn view(&self) -> FieldMapSeq;
+    #[verifier::external_body]
+    pub fn len(&self) -> (r: usize) ensures r == self@.len() { unimplemented!() }
+    /// `for (k, v) in &map` visits the entries in insertion order; the i-th one (listed rewrite of the for loop)
+    #[verifier::external_body]
+    pub fn index_pair(&self, i: usize) -> (r: (&Name, &Component<FieldDefinition>)) requires i < self@.len() ensures *r.0 == self@[i as int].0, *r.1 == self@[i as int].1 { unimplemented!() }
+    #[verifier::external_body]
+    pub fn get(&self, k: &Name) -> (r: Option<&Component<FieldDefinition>>)
+        ensures r is Some <==> find_idx(self@, *k, self@.len() as int) >= 0, r is Some ==> *r->0 == self@[find_idx(self@, *k, self@.len() as int)].1
+    { unimplemented!() }
+}
+#[verifier::external_body]
+pub struct NameSet { x: u8 }
+impl NameSet {
+    pub uninterp spec fn view(&self) -> Seq<ComponentName>;
+    #[verifier::external_body]
+    pub fn len(&self) -> (r: usize) ensures r == self@.len() { unimplemented!() }
+    #[verifier::external_body]
+    pub fn index(&self, i: usize) -> (r: &ComponentName) requires i < self@.len() ensures *r == self@[i as int] { unimplemented!() }
+}
+// crate::collections::IndexSet of borrowed names as a mathematical set (a set a function might use for bookkeeping)
+#[verifier::external_body]
+#[verifier::reject_recursive_types(T)]
+pub struct IndexSet<T> { t: core::marker::PhantomData<T> }
+impl<'a> IndexSet<&'a Name> {
+    pub uninterp spec fn view(&self) -> Set<Name>;
+    #[verifier::external_body]
+    pub fn default() -> (r: Self) ensures r@ == Set::<Name>::empty() { unimplemented!() }
+    #[verifier::external_body]
+    pub fn insert(&mut self, v: &'a Name) -> (r: bool) ensures r == !old(self)@.contains(*v), final(self)@ == old(self)@.insert(*v) { unimplemented!() }
+    #[verifier::external_body]
+    pub fn contains(&self, v: &Name) -> (r: bool) ensures r == self@.contains(*v) { unimplemented!() }
+}
+pub struct InterfaceType { pub fields: FieldMap }
+pub uninterp spec fn interface_of(s: &SchemaShim, name: Name) -> Option<InterfaceType>;
+impl SchemaShim {
+    /// Schema::get_interface: the interface type definition with that name, if the name is defined and is an interface
+    #[verifier::external_body]
+    pub fn get_interface(&self, name: &ComponentName) -> (r: Option<&Node<InterfaceType>>)
+        ensures match r { Some(i) => interface_of(self, name.name) == Some(*i.0), None => interface_of(self, name.name) is None }
+    { unimplemented!() }
+}
+/// what one report says: (interface, field, interface field type, implementing field type, implementor)
+pub open spec fn report_of(e: DiagnosticEntry) -> (Name, Name, Type, Type, Name) {
+    (e.data->InvalidImplementationFieldType_interface, e.data->InvalidImplementationFieldType_field, e.data->InvalidImplementationFieldType_interface_type,
+     e.data->InvalidImplementationFieldType_actual_type, e.data->InvalidImplementationFieldType_name)
+}
+/// reports owed for the first n fields of one interface, in order
+pub open spec fn owed_for_interface(s: &SchemaShim, who: Name, impl_fields: FieldMapSeq, iface: Name, ifields: FieldMapSeq, n: int) -> Seq<(Name, Name, Type, Type, Name)> decreases n {
+    if n <= 0 { Seq::empty() } else {
+        let prev = owed_for_interface(s, who, impl_fields, iface, ifields, n - 1);
+        let idx = find_idx(impl_fields, ifields[n - 1].0, impl_fields.len() as int);
+        if idx >= 0 && !is_valid_implementation_field_type_spec(s, *impl_fields[idx].1.node.0.ty.0, *ifields[n - 1].1.node.0.ty.0) {
+            prev.push((iface, ifields[n - 1].0, *ifields[n - 1].1.node.0.ty.0, *impl_fields[idx].1.node.0.ty.0, who))
+        } else { prev }
+    }
+}
+/// reports owed for the first m implemented interfaces, in order (names that are not interfaces of the schema are skipped)
+pub open spec fn owed(s: &SchemaShim, who: Name, impl_fields: FieldMapSeq, ifaces: Seq<ComponentName>, m: int) -> Seq<(Name, Name, Type, Type, Name)> decreases m {
+    if m <= 0 { Seq::empty() } else {
+        let prev = owed(s, who, impl_fields, ifaces, m - 1);
+        match interface_of(s, ifaces[m - 1].name) {
+            Some(it) => prev + owed_for_interface(s, who, impl_fields, ifaces[m - 1].name, it.fields@, it.fields@.len() as int),
+            None => prev,
+        }
+    }
+}
+pub open spec fn reports(es: Seq<DiagnosticEntry>, from: int) -> Seq<(Name, Name, Type, Type, Name)> { es.skip(from).map_values(|e: DiagnosticEntry| report_of(e)) }
+pub open spec fn all_impl_type_reports(es: Seq<DiagnosticEntry>, from: int) -> bool { forall|k: int| from <= k < es.len() ==> (#[trigger] es[k]).data is InvalidImplementationFieldType }
+
 pub open spec fn opt_val(o: Option<Node<Value>>) -> Option<Value> {
     match o { Some(n) => Some(*n.0), None => None }
+}
+
+
+// validate_variable_usage: a diagnostic (and Err) exactly when the argument's value is a variable that IS defined and whose usage is not allowed
+pub open spec fn usage_violation(var_usage: &ast::InputValueDefinition, var_defs: Seq<Node<VarDef>>, argument: &ast::Argument) -> bool {
+    match *argument.value.0 {
+        Value::Variable(v) => exists|i: int| 0 <= i < var_defs.len() && (#[trigger] var_defs[i]).0.name == v && (forall|j: int| 0 <= j < i ==> (#[trigger] var_defs[j]).0.name != v)
+            && !is_variable_usage_allowed_spec(*var_defs[i].0.ty.0, opt_val(var_defs[i].0.default_value), *var_usage.ty.0, var_usage.default_value is Some),
+        _ => false,
+    }
 }
 
 impl Clone for Type {
@@ -171,7 +309,7 @@ proof fn spec_examples(a: Name, b: Name, s: &SchemaShim)
 '''
 
 
-def T(name, clauses, **kw):
+def T(name, clauses=None, **kw):
     d = dict(file=IMPLS, kind="fn", name=name, container="Type", container_name="Type", wrap="impl Type", clauses=clauses, props=["C29"])
     d.update(kw)
     return d
@@ -179,7 +317,7 @@ def T(name, clauses, **kw):
 
 UNIT = {
     "name": "types",
-    "properties": ["C29"],
+    "properties": ["C29", "C17"],
     "parts": [
         PRELUDE,
         dict(file="crates/apollo-compiler/src/ast/mod.rs", kind="enum", name="Type", props=["C29"]),
@@ -190,7 +328,7 @@ UNIT = {
         T("is_non_null", [("ensures", "is_non_null", "r == spec_non_null(*self)")]),
         T("is_list", [("ensures", "is_list", "r == spec_is_list(*self)")]),
         T("is_named", [("ensures", "is_named", "r == !spec_is_list(*self)")]),
-        T("is_assignable_to", [
+        T("is_assignable_to", props=["C29", "C17"], clauses=[
             ("ensures", "AreTypesCompatible", "r == are_types_compatible(*self, *target)"),
             ("decreases", None, "self"),
         ], hints=[("body_start", None, "proof { reveal_with_fuel(are_types_compatible, 3); reveal_with_fuel(size, 3); }")]),
@@ -199,13 +337,50 @@ UNIT = {
         dict(file="crates/apollo-compiler/src/validation/variable.rs", kind="fn", name="is_variable_usage_allowed",
              clauses=[("ensures", "IsVariableUsageAllowed",
                        "r == is_variable_usage_allowed_spec(*variable_def.ty.0, opt_val(variable_def.default_value), *variable_usage.ty.0, variable_usage.default_value is Some)")],
-             props=["C29"]),
+             props=["C29", "C17"]),
         dict(file="crates/apollo-compiler/src/validation/interface.rs", kind="fn", name="is_valid_implementation_field_type",
              rewrites=[("crate::Schema", "crate_::Schema", 1)],
              clauses=[("ensures", "IsValidImplementationFieldType",
                        "r == is_valid_implementation_field_type_spec(schema, *impl_field_type, *interface_field_type)"),
                       ("decreases", None, "interface_field_type")],
              hints=[("body_start", None, "proof { reveal_with_fuel(is_valid_implementation_field_type_spec, 3); reveal_with_fuel(size, 3); }")],
+             props=["C29"]),
+        dict(file="crates/apollo-compiler/src/validation/variable.rs", kind="fn", name="validate_variable_usage",
+             rewrites=[("var_defs.iter().find(|v| v.name == *var_name)", "find_variable_definition(var_defs, var_name)", 1)],
+             clauses=[("ensures", "error_iff_a_defined_variable_is_used_where_it_is_not_allowed", "r is Err <==> usage_violation(&*var_usage.0, var_defs@, &*argument.0)"),
+                      ("ensures", "one_diagnostic_per_violation", "final(diagnostics).entries@.len() == old(diagnostics).entries@.len() + (if r is Err { 1int } else { 0int })"),
+                      ("ensures", "earlier_diagnostics_kept", "final(diagnostics).entries@.take(old(diagnostics).entries@.len() as int) =~= old(diagnostics).entries@"),
+                      ("ensures", "the_diagnostic_names_the_variable", "r is Err ==> final(diagnostics).entries@.last().data is DisallowedVariableUsage && *argument.0.value.0 == Value::Variable(final(diagnostics).entries@.last().data->DisallowedVariableUsage_variable)")],
+             props=["C29", "C17"]),
+        dict(file="crates/apollo-compiler/src/validation/interface.rs", kind="fn", name="validate_implementation_field_types", n_loops=2,
+             rewrites=[("schema: &crate::Schema", "schema: &crate_::Schema", 1),
+                       ("implementor_fields: &IndexMap<Name, Component<FieldDefinition>>", "implementor_fields: &FieldMap", 1),
+                       ("implements_interfaces: &IndexSet<ComponentName>", "implements_interfaces: &NameSet", 1),
+                       # the language's own desugaring of `for x in &indexed_collection` with `continue` in the body (Verus: for-loops do not support continue)
+                       ("for interface_name in implements_interfaces {", "let mut __i: usize = 0; while __i < implements_interfaces.len() { let interface_name = implements_interfaces.index(__i); __i += 1;", 1),
+                       ("for (field_name, interface_field) in &interface.fields {", "let mut __j: usize = 0; while __j < interface.fields.len() { let (field_name, interface_field) = interface.fields.index_pair(__j); __j += 1;", 1)],
+             clauses=[("ensures", "earlier_diagnostics_kept", "final(diagnostics).entries@.len() >= old(diagnostics).entries@.len() && final(diagnostics).entries@.take(old(diagnostics).entries@.len() as int) =~= old(diagnostics).entries@"),
+                      ("ensures", "exactly_the_owed_reports_in_order",
+                       "all_impl_type_reports(final(diagnostics).entries@, old(diagnostics).entries@.len() as int) && reports(final(diagnostics).entries@, old(diagnostics).entries@.len() as int) =~= owed(schema, *implementor_name, implementor_fields@, implements_interfaces@, implements_interfaces@.len() as int)")],
+             loops=[dict(invariant=[
+                        ("bounds", "__i <= implements_interfaces@.len()"),
+                        ("earlier_diagnostics_kept", "diagnostics.entries@.len() >= old(diagnostics).entries@.len(), diagnostics.entries@.take(old(diagnostics).entries@.len() as int) =~= old(diagnostics).entries@"),
+                        ("owed_so_far", "all_impl_type_reports(diagnostics.entries@, old(diagnostics).entries@.len() as int), reports(diagnostics.entries@, old(diagnostics).entries@.len() as int) =~= owed(schema, *implementor_name, implementor_fields@, implements_interfaces@, __i as int)"),
+                    ], decreases="implements_interfaces@.len() - __i"),
+                    dict(invariant=[
+                        ("bounds", "__j <= interface.0.fields@.len(), 0 < __i <= implements_interfaces@.len(), *interface_name == implements_interfaces@[__i - 1], interface_of(schema, interface_name.name) == Some(*interface.0)"),
+                        ("earlier_diagnostics_kept", "diagnostics.entries@.len() >= old(diagnostics).entries@.len(), diagnostics.entries@.take(old(diagnostics).entries@.len() as int) =~= old(diagnostics).entries@"),
+                        ("owed_so_far", "all_impl_type_reports(diagnostics.entries@, old(diagnostics).entries@.len() as int), reports(diagnostics.entries@, old(diagnostics).entries@.len() as int) =~= owed(schema, *implementor_name, implementor_fields@, implements_interfaces@, __i - 1) + owed_for_interface(schema, *implementor_name, implementor_fields@, interface_name.name, interface.0.fields@, __j as int)"),
+                    ], decreases="interface.0.fields@.len() - __j")],
+             hints=[("loop_body_start", 1, "let ghost e0 = diagnostics.entries@; let ghost n0 = old(diagnostics).entries@.len() as int;"),
+                    ("loop_body_end", 1, "proof { let e1 = diagnostics.entries@;\n"
+                     "    let base = owed(schema, *implementor_name, implementor_fields@, implements_interfaces@, __i - 1);\n"
+                     "    let prev = owed_for_interface(schema, *implementor_name, implementor_fields@, interface_name.name, interface.0.fields@, __j - 1);\n"
+                     "    if e1.len() > e0.len() {\n"
+                     "        assert(e1.skip(n0) =~= e0.skip(n0).push(e1.last())); assert(e1.take(n0) =~= e0.take(n0));\n"
+                     "        assert(reports(e1, n0) =~= reports(e0, n0).push(report_of(e1.last())));\n"
+                     "        assert((base + prev).push(report_of(e1.last())) =~= base + prev.push(report_of(e1.last())));\n"
+                     "    } else { assert(e1 =~= e0); } }")],
              props=["C29"]),
         LEMMAS,
     ],
